@@ -12,10 +12,19 @@ tvars == <<vars, l, run>>
 Verdict(what) == PrintT(<<"VERDICT", ToJson([run |-> run, l |-> l, v |-> "bad", what |-> what])>>)
 
 MemOk(ev) == \A p \in Range(ev.mem) : p[1] \in Key => mem'[p[1]] = p[2]
+(* the payload a key serves is the payload of the write whose stamp the node holds for it (stamps identify writes) *)
+MemvOk(ev) == "memv" \notin DOMAIN ev \/ \A p \in Range(ev.memv) : p[1] \in Key => mem'[p[1]] = p[2]
 Judge(ev) ==
   IF bad' # "no" /\ bad = "no" THEN Verdict(bad')
   ELSE IF up' /\ ~MemOk(ev) THEN Verdict("stamps held by the node differ from the specification")
+  ELSE IF up' /\ ~MemvOk(ev) THEN Verdict("the value served is not the one written with the greatest stamp: a newer write lost against an older one")
   ELSE TRUE
+(* NewestWins: a peer that has merged every delta this node issued or received holds, per key, the greatest stamp *)
+(* of them all - and serves that write's payload                                                                 *)
+PeerStamp(k) == MaxStampOf({p[2] : p \in {q \in Range(issued) \cup remote : q[1] = k}})
+PeerOk(ev) == /\ \A p \in Range(ev.mem) : p[1] \in Key => p[2] = PeerStamp(p[1])
+              /\ \A k \in Key : PeerStamp(k) # Zero => \E p \in Range(ev.mem) : p[1] = k
+              /\ \A p \in Range(ev.memv) : p[1] \in Key => p[2] = PeerStamp(p[1])
 Skip == UNCHANGED <<vars, run>>
 
 Step(ev) ==
@@ -28,6 +37,7 @@ Step(ev) ==
         /\ (IF ev.st[2] # Me THEN Verdict("the write produced no delta or a delta of another replica") ELSE Judge(ev))
     [] ev.a = "remote" -> RemoteAny(ev.k, ev.t) /\ run' = run /\ Judge(ev)
     [] ev.a = "checkpoint" -> CheckpointWith("trim" \in DOMAIN ev /\ ev.trim) /\ run' = run /\ Judge(ev)
+    [] ev.a = "peer" -> Skip /\ (IF ~PeerOk(ev) THEN Verdict("a peer that merged every update does not hold the newest write of a key") ELSE TRUE)
     [] ev.a = "crash" -> Crash /\ run' = run
     [] ev.a = "recover" -> Recover /\ run' = run /\ (IF "panic" \in DOMAIN ev THEN Verdict("the restart sequence failed") ELSE Judge(ev))
     [] OTHER -> Skip /\ Verdict("panic in code under test")
